@@ -4,3 +4,4 @@ import UtpVerif.Model.Rtte
 import UtpVerif.Props.C09
 import UtpVerif.Props.C16
 import UtpVerif.Props.C11
+import UtpVerif.Props.C14
